@@ -43,6 +43,9 @@ func c03Routes(proto string) []routeSpec {
 		// a dead address and a live host: a connect failure is followed by a re-selection (retried also without retry_on)
 		{Key: "mix", Cluster: "cl-$P-mix", Extra: jmap{"timeout": "900ms", "retry_policy": jmap{"retry_on": false, "num_retries": 2}}},
 		{Key: "mixon", Cluster: "cl-$P-mix", Extra: jmap{"timeout": "900ms", "retry_policy": jmap{"retry_on": true, "num_retries": 3}}},
+		// global timeout 400 ms, retried on 5xx, no per-try timeout: a 503 that arrives just before the global timeout makes the
+		// timeout fire while the retry is being set up
+		{Key: "edge", Cluster: "cl-$P", Extra: jmap{"timeout": "400ms", "retry_policy": jmap{"retry_on": true, "num_retries": 2}}},
 	}
 }
 
@@ -132,7 +135,7 @@ func planClass(p string) string {
 }
 
 func c03Engine(c *lab.Ctx) {
-	c.Rule("running MOSN, 3 protocol pairings x routes {fast, retry(per-try 200ms, 2 retries), retry without per-try timeout, unknown cluster, empty cluster, dead host, dead address + live host (with / without retry_on), no route} x per-attempt upstream plans {ok,5xx,4xx,delay,stall,close,rst,half,late,big,answer + go-away announcement} x {two-way, abandoned by client}; 8 concurrent clients per protocol; distinct = (protocol, route, plan class, client outcome)")
+	c.Rule("running MOSN, 3 protocol pairings x routes {fast, retry(per-try 200ms, 2 retries), retry without per-try timeout, unknown cluster, empty cluster, dead host, dead address + live host (with / without retry_on), a retrying route whose 5xx arrives at the edge of its global timeout, no route} x per-attempt upstream plans {ok,5xx,4xx,delay,stall,close,rst,half,late,big,answer + go-away announcement} x {two-way, abandoned by client}; 8 concurrent clients per protocol; distinct = (protocol, route, plan class, client outcome)")
 	e, err := newEngine(c, engineProtos, c03Routes, nil, nil)
 	if err != nil {
 		c.Require("mosn started", false, err.Error())
@@ -169,6 +172,9 @@ func c03Engine(c *lab.Ctx) {
 						cs.key, cs.plan = "retry0", c03Retry0Plans[crng.Intn(len(c03Retry0Plans))]
 					case 7:
 						cs.key, cs.plan = crng.PickStr("mix", "mixon"), c03MixPlans[crng.Intn(len(c03MixPlans))]
+					case 8:
+						// the first attempt's 503 arrives 0..20 ms before the global timeout, the second attempt is never answered
+						cs.key, cs.plan = "edge", fmt.Sprintf("d%d:s503|stall", 380+crng.Intn(21))
 					default:
 						cs.key, cs.plan = "fast", c03Plans[crng.Intn(len(c03Plans))]
 					}
@@ -201,6 +207,36 @@ func c03Engine(c *lab.Ctx) {
 		}
 	}
 	wg.Wait()
+	// the edge of a retry, undisturbed by other traffic: per protocol 8 clients walk the 503 of the first attempt from 20 ms
+	// before the global timeout up to it
+	for _, proto := range engineProtos {
+		var ewg sync.WaitGroup
+		for ci := 0; ci < 8; ci++ {
+			ewg.Add(1)
+			go func(proto string, ci int) {
+				defer ewg.Done()
+				cl := e.newClient(proto, fmt.Sprintf("%s-edge-%d", proto, ci))
+				defer cl.close()
+				for rep := 0; rep < c.Pick(1, 4); rep++ {
+					for d := 380; d <= 400; d += 2 {
+						cs := c03Case{proto: proto, key: "edge", plan: fmt.Sprintf("d%d:s503|stall", d)}
+						mu.Lock()
+						tokenN++
+						tok := fmt.Sprintf("t%d-%s-%d", c.Batch, proto, tokenN)
+						mu.Unlock()
+						c.Case("engine %s route=%s plan=%s token=%s", proto, cs.key, cs.plan, tok)
+						ev := cl.do(reqFor(proto, cs.key, tok, cs.plan))
+						c.Eval(1)
+						c03Judge(c, cs, ev, e, "edge")
+						if ev.Kind != "response" {
+							cl.close()
+						}
+					}
+				}
+			}(proto, ci)
+		}
+		ewg.Wait()
+	}
 	books, stable := e.quiesce(10 * time.Second)
 	c.Count("requests", int64(len(e.log.cls)))
 	c.Count("upstream-attempts", int64(len(e.log.ups)))
